@@ -10,6 +10,11 @@ def run(chk):
     r = vlib.run_tlc("MC_ConnCache", "MC_ConnCache.cfg", timeout=1200)
     vlib.tlc_must_pass(r, "MC_ConnCache")
     chk.add_tlc(r)
+    # negative control: a clients.del that forgets a connection left without regions must break DialsBounded in the model
+    nc = vlib.run_tlc("MC_ConnCache", "MC_ConnCache_deldrops.cfg", timeout=600)
+    if nc["violated"] != "DialsBounded":
+        raise vlib.MachineryError("MC_ConnCache_deldrops: expected the DialsBounded counter-example, got %r" % (nc["violated"],))
+    chk.cov["model_counterexample_del_forgets_regionless_connection"] = str(nc["violated"])
     wd = vlib.scratch("verif-c20-")
     t = vlib.go_test("", "^TestVerifC20$", env=dict(VERIF_OUT=wd, VERIF_SEED=str(chk.seed), VERIF_N="400" if thorough else "40"), timeout=1700, race=True)
     resf = os.path.join(wd, "c20_result.json")
